@@ -141,15 +141,22 @@ func vpH_C02_bigmerge() {
 	dr := roaring.New()
 	var drb *roaring.Bitmap
 	var surv []*vpDoc
-	if vpChoice("survivors", 2) == 1 {
-		// exactly 1024 survivors, all of them holding term x: the boundary of the
-		// adaptive chunk size (cardinality / 1024 + 1 chunks)
+	segs := []*Segment{sa, sb}
+	survChoice := vpChoice("survivors", 3)
+	if survChoice >= 1 {
+		// exactly 1024 (1023) survivors, all of them holding term x: the boundary of
+		// the adaptive chunk size (cardinality / 1024 + 1 chunks)
 		drb = roaring.New()
 		for d := 0; d < 88; d++ {
 			dr.Add(uint32(d))
 			drb.Add(uint32(d))
 		}
-		surv = append(append(surv, a[88:]...), b[88:]...)
+		cutA := 88
+		if survChoice == 2 {
+			dr.Add(88)
+			cutA = 89
+		}
+		surv = append(append(surv, a[cutA:]...), b[88:]...)
 	} else {
 		for d := range a {
 			if d%97 == 13 {
@@ -160,14 +167,25 @@ func vpH_C02_bigmerge() {
 		}
 		surv = append(surv, b...)
 	}
-	mb, _ := vpMergeBytes([]*Segment{sa, sb}, []*roaring.Bitmap{dr, drb}, 1025)
+	drops := []*roaring.Bitmap{dr, drb}
+	if survChoice == 2 {
+		// 1023 survivors plus a third, second-generation input whose only document
+		// holds x as a 1-hit term and is deleted by this merge
+		g := []*vpDoc{{fields: []*vpField{{name: "a", length: 1, terms: []*vpTerm{{term: []byte("x"), freq: 1}}}}}}
+		gb, _ := vpMergeBytes([]*Segment{vpBuild(g, 1025)}, []*roaring.Bitmap{nil}, 1025)
+		dg := roaring.New()
+		dg.Add(0)
+		segs = []*Segment{vpLoad(gb), sa, sb}
+		drops = []*roaring.Bitmap{dg, dr, drb}
+	}
+	mb, _ := vpMergeBytes(segs, drops, 1025)
 	m := vpLoad(mb)
 	n := len(surv)
 	half := uint64(n / 2)
 	targets := []uint64{1, half - 1, half, half + 2, 1023, 1024, 1025, uint64(n) - 1}
-	if n == 1024 {
-		// non-decreasing, nothing after the first target beyond the end
-		targets = []uint64{1, half - 1, half, half + 2, 1022, 1023, 1024, 1025}
+	if n <= 1024 {
+		// non-decreasing targets
+		targets = []uint64{1, half - 1, half, half + 2, 1021, 1022, 1023, 1024, 1025}
 	}
 	vpBigCheck("bigmerge", m, surv, targets)
 	vpReach("C02 bigmerge end")
